@@ -1,10 +1,11 @@
 #!/bin/bash
-# Applies each witness/inline/<Cxx-n>.diff (a benign helper extraction with a defect planted in the
-# helper) to /repo and requires the property's check to fire. Restores /repo afterwards.
+# Applies each witness/<rule>/<Cxx>-<name>.diff (a small variant with one rule instance broken: a defect
+# planted inside a freshly extracted helper, an early return between Lock and Unlock, …) to /repo and
+# requires the property's check to fire. Restores /repo afterwards.
 cd /verif
 git -C /repo diff --quiet || { echo "/repo dirty"; exit 2; }
 rc=0
-for f in witness/inline/*.diff; do s=$(basename $f .diff); p=${s%-*}
+for f in witness/*/*.diff; do s=$(basename $f .diff); p=${s%%-*}
   git -C /repo apply /verif/$f || { echo "$s: patch does not apply"; rc=1; continue; }
   VERIF_EVIDENCE_DIR=/tmp/ev.$$ bin/btcdlint check $p > /tmp/iw.$$ 2>&1; c=$?
   git -C /repo checkout -- . ; git -C /repo clean -fdq
